@@ -849,9 +849,15 @@ def file_level(rep, rng, tier, trig, replay=None):
                 kind = views[firsterr][1]
                 cause = "invalid-state value outside its set" if kind == "Invalid" else "invalid-state/row/column record that is not an integer"
                 causes[cause] = causes.get(cause, 0) + 1
-                if s["end"] != "e" + kind or s["n"] > firsterr or any(s["pts"][j] != views[j] for j in range(s["n"])):
+                if s["end"] != "e" + kind or s["n"] > firsterr:
                     bad = ("c05-fails-only-if", "raw point %d has no documented view (%s) but the simple iterator (options %d) returned %d points and ended with %s" %
                            (firsterr, kind, k, s["n"], s["end"]))
+                else:
+                    j = next((j for j in range(s["n"]) if s["pts"][j] != views[j]), None)
+                    if j is not None:
+                        bad = ("c05-view", "point %d under options %d (delivered before a later point failed) is %s, the documented view of its raw values %s is %s" %
+                               (j, k, s["pts"][j][:200], raw["pts"][j][:120], views[j][:200]))
+                        rpk["point_index"] = j
             else:
                 # no failing point among those the raw iterator returned: a difference is legitimate only
                 # when a written point beyond the descriptor's count was decoded ahead and is out of set
